@@ -1,0 +1,35 @@
+/*
+Verification hooks (compiled only with -DRANDOMX_VERIF; never defined by the regular build).
+A single optional sink receives one event per decision point of the public API; the iteration
+count of the program loop and an executed-instruction counter are exposed so that a test
+harness can run short programs and count executed instructions. With the guard off every
+macro below expands to nothing.
+*/
+#pragma once
+
+#ifdef RANDOMX_VERIF
+
+#ifdef __cplusplus
+extern "C" {
+#endif
+
+typedef void (*randomx_verif_sink_t)(const char *event, const void *object, unsigned long long a, unsigned long long b);
+extern randomx_verif_sink_t randomx_verif_sink;
+/* number of iterations of the VM program loop (default RANDOMX_PROGRAM_ITERATIONS) */
+extern unsigned int randomx_verif_iterations;
+/* number of bytecode instructions executed by the interpreter on this thread */
+extern __thread unsigned long long randomx_verif_executed;
+
+#ifdef __cplusplus
+}
+#endif
+
+#define RANDOMX_VERIF_EVENT(ev, obj, a, b) do { if (randomx_verif_sink) randomx_verif_sink((ev), (obj), (unsigned long long)(a), (unsigned long long)(b)); } while (0)
+#define RANDOMX_VERIF_COUNT_INSTRUCTION() (++randomx_verif_executed)
+
+#else
+
+#define RANDOMX_VERIF_EVENT(ev, obj, a, b) do { } while (0)
+#define RANDOMX_VERIF_COUNT_INSTRUCTION() ((void)0)
+
+#endif
